@@ -197,7 +197,7 @@ def _zonal_amps(rng):
         return rng.uniform(-0.3, 0.3, int(rng.integers(1, 5)))
     n = int(rng.integers(6, 10))
     amps = rng.uniform(-0.02, 0.02, n)
-    amps[n - 1] = rng.choice([-1, 1]) * rng.uniform(0.12, 0.2)
+    amps[n - 1] = rng.choice([-1, 1]) * rng.uniform(0.3, 0.45)    # a pronounced bulge / dent at the poles
     return amps
 
 
@@ -245,7 +245,7 @@ def _oracle_cases(seed, count):
             if on_centre:
                 pos = np.array([grid.axes_coords[0][int(rng.integers(0, 16))], grid.axes_coords[1][int(rng.integers(0, 12))]])
             amps = rng.uniform(-0.3, 0.3, int(rng.integers(1, 6)))
-            obj = D.PerturbedDroplet2D(pos, float(rng.uniform(0.8, 2.5)), w, amps)
+            obj = D.PerturbedDroplet2D(pos, float(rng.uniform(0.6, 0.95) if on_centre and k % 2 else rng.uniform(0.8, 2.5)), w, amps)
         elif kind in ("p3", "pa_c3"):
             grid = CartesianGrid([[0, 6], [0, 6], [-2, 4]], [8, 8, 8], periodic=[bool(rng.integers(0, 2)), False, bool(rng.integers(0, 2))])
             if kind == "p3":
@@ -265,7 +265,13 @@ def _oracle_cases(seed, count):
             if on_centre:
                 pos[2] = grid.axes_coords[1][int(rng.integers(0, 16))]
             amps = _zonal_amps(rng)
-            obj = D.PerturbedDroplet3DAxisSym(pos, float(rng.uniform(1.0, 2.5)), w, amps)
+            if len(amps) >= 6:
+                # high zonal mode: a sharp interface on a finer grid, so that cells fall into the polar bulge
+                w = 0.0
+                grid = CylindricalSymGrid(4, [0, 8], [16, 32], periodic_z=False)
+                if on_centre:
+                    pos[2] = grid.axes_coords[1][int(rng.integers(0, 32))]
+            obj = D.PerturbedDroplet3DAxisSym(pos, float(rng.uniform(1.8, 2.5)), w, amps)
         elif kind == "polar":
             grid = PolarSymGrid(6, 24)
             obj = D.DiffuseDroplet(np.zeros(2), float(rng.uniform(0, 7)), w)
@@ -297,7 +303,14 @@ def _oracle_cases(seed, count):
             margin = iface - dist
             sure = np.abs(margin) > 1e-9 * max(1.0, obj.radius)
             if cls.startswith("Perturbed"):
-                sure &= dist > 0   # the direction is undefined at the centre itself; only finiteness is judged there
+                # the direction is undefined at the centre itself -- but whatever it is taken to be, the centre lies
+                # inside as long as the interface distance is positive in EVERY direction (harmonics bounded by 1.6 here)
+                amax = float(np.sum(np.abs(obj.amplitudes))) * (1.0 if cls == "PerturbedDroplet2D" else 1.6)
+                at_centre = dist == 0
+                if amax < 0.9:
+                    margin = np.where(at_centre, obj.radius * (1 - amax), margin)
+                else:
+                    sure &= ~at_centre
             if not np.all(np.isfinite(data)):
                 fails.append("non-finite value")
             else:
